@@ -224,6 +224,16 @@ func Dispatch(
 	if orderErr != nil {
 		return nil, "", true, orderErr
 	}
+	// The row plan scans series by series when the GroupBy keys are exactly the
+	// entity (measure_analyzer.Analyze groupByEntity, localIndexScan.Execute), so
+	// its groups come out in series order. Ask the storage for the same order:
+	// the group operators below emit groups in first-seen order.
+	if groupByIsEntity(req.GetGroupBy(), entityList) {
+		if indexOrder == nil {
+			indexOrder = &index.OrderBy{}
+		}
+		indexOrder.Type = index.OrderByTypeSeries
+	}
 
 	// Resolve the index.Query + entities the same way the row path does
 	// in unresolvedIndexScan.Analyze.
@@ -340,6 +350,19 @@ func resolveOrderBy(reqOrder *modelv1.QueryOrder, schema logical.Schema) (*index
 		out.Type = index.OrderByTypeTime
 	}
 	return out, nil
+}
+
+// groupByIsEntity reports whether the GroupBy tags, over all families in
+// request order, are exactly the entity tag list.
+func groupByIsEntity(groupBy *measurev1.QueryRequest_GroupBy, entityList []string) bool {
+	if groupBy == nil {
+		return false
+	}
+	var tags []string
+	for _, family := range groupBy.GetTagProjection().GetTagFamilies() {
+		tags = append(tags, family.GetTags()...)
+	}
+	return logical.StringSlicesEqual(entityList, tags)
 }
 
 // locateScan walks a vec plan tree to find the leaf Scan node. Today there
